@@ -114,10 +114,24 @@ Definition spec_of (i : term) (p : profile) : bool :=
                 (wrap_i64 (wrap_i64 (pd_period d) * 1000)) (map dm_file (pd_maps d)) p
   else false.
 
+(* mappings clause, strict form: the mapping table and the mapping given to every location are the
+   ones the documented conversion convert_* derives from the document's trailing memory map *)
+Definition convert_of (i : term) : profile :=
+  let f := i_fmt i in let d := i_doc i in
+  if String.eqb f "count" then convert_count (cdoc_of d)
+  else if String.eqb f "heap" then convert_heap (i_un i) (hdoc_of d)
+  else if String.eqb f "contention" then convert_contention (kdoc_of d)
+  else if String.eqb f "thread" then convert_thread (tdoc_of d)
+  else convert_cpu (pdoc_of d).
+Definition mapping_view (p : profile) : term :=
+  TL [TL (map of_mapping (p_mapping p)); TL (map (fun l => TL [TZ (l_addr l); TZ (l_mapping l)]) (p_location p))].
+Definition mappings_as_documented (i : term) (p : profile) : bool :=
+  term_eqb (mapping_view (convert_of i)) (mapping_view p).
+
 Definition spec_C14 (i o : term) : bool :=
   if String.eqb (i_kind i) "mut" || i_proto_ok i then true
   else match o with
-       | TL [TS "ok"; po] => spec_of i (profile_of po)
+       | TL [TS "ok"; po] => let p := profile_of po in spec_of i p && mappings_as_documented i p
        | _ => false
        end.
 
